@@ -732,12 +732,22 @@ func runC09HostileHost(t *testing.T, rep *Report) {
 		veto     bool
 		vsn      []uint8
 		wantOK   bool
+		kind     string // "": a state list; "errmsg": the generic error reply; "wrongtype": a state list announced under another message type
+		addr     string // what the application passes to Join ("" = 10.0.0.2:7946)
+		noDial   bool   // the address is malformed: Join must fail without contacting anybody
 	}
 	cases := []hh{
-		{"reply Join=true, initiator vetoes", true, true, defaultVsn, false},
-		{"reply Join=false, initiator vetoes", false, true, defaultVsn, false},
-		{"reply Join=false, initiator accepts", false, false, defaultVsn, true},
-		{"reply lists a node with an incompatible version range", true, false, []uint8{4, 5, 4, 0, 0, 0}, false},
+		{desc: "host answers with the generic error reply", joinFlag: true, vsn: defaultVsn, kind: "errmsg"},
+		{desc: "host announces its state list under the user-message type", joinFlag: true, vsn: defaultVsn, kind: "wrongtype"},
+		{desc: "Join given a bare IP (default port)", joinFlag: true, vsn: defaultVsn, wantOK: true, addr: "10.0.0.2"},
+		{desc: "Join given name/ip:port", joinFlag: true, vsn: defaultVsn, wantOK: true, addr: twinR + "/10.0.0.2:7946"},
+		{desc: "Join given name/ip", joinFlag: true, vsn: defaultVsn, wantOK: true, addr: twinR + "/10.0.0.2"},
+		{desc: "Join given an empty node name", joinFlag: true, vsn: defaultVsn, addr: "/10.0.0.2:7946", noDial: true},
+		{desc: "Join given a port out of range", joinFlag: true, vsn: defaultVsn, addr: "10.0.0.2:99999", noDial: true},
+		{desc: "reply Join=true, initiator vetoes", joinFlag: true, veto: true, vsn: defaultVsn},
+		{desc: "reply Join=false, initiator vetoes", veto: true, vsn: defaultVsn},
+		{desc: "reply Join=false, initiator accepts", vsn: defaultVsn, wantOK: true},
+		{desc: "reply lists a node with an incompatible version range", joinFlag: true, vsn: []uint8{4, 5, 4, 0, 0, 0}},
 	}
 	for ci, c := range cases {
 		if !mine(4000 + ci) {
@@ -752,7 +762,12 @@ func runC09HostileHost(t *testing.T, rep *Report) {
 				must(err)
 				a := b.track(an)
 				advance(time.Microsecond)
+				dials := 0
 				a.T.OnDial = func(ad ml.Address, d time.Duration) (net.Conn, error) {
+					dials++
+					if ad.Addr != "10.0.0.2:7946" {
+						rep.Violate("hostile-host:dialled-elsewhere", fmt.Sprintf("%s %v: dialled %q", c.desc, cfg, ad.Addr), nil)
+					}
 					c1, c2 := simPipe(a.Addr, simAddr(ad.Addr))
 					b.conns = append(b.conns, c1, c2)
 					go func() {
@@ -763,11 +778,20 @@ func runC09HostileHost(t *testing.T, rep *Report) {
 							{Name: "extra", Addr: ip4(33), Port: 7946, Incarnation: 1, State: ml.StateAlive, Vsn: c.vsn},
 						}
 						out := bytes.NewBuffer(nil)
-						hdr, _ := ml.VEncode(ml.VPushPullMsg, &ml.VPushPullHeader{Nodes: len(nodes), UserStateLen: 0, Join: c.joinFlag}, false)
+						mt := ml.VPushPullMsg
+						if c.kind == "wrongtype" {
+							mt = ml.VUserMsg
+						}
+						hdr, _ := ml.VEncode(mt, &ml.VPushPullHeader{Nodes: len(nodes), UserStateLen: 0, Join: c.joinFlag}, false)
 						out.Write(hdr)
 						for i := range nodes {
 							e, _ := ml.VEncode(0, &nodes[i], false)
 							out.Write(e[1:])
+						}
+						if c.kind == "errmsg" {
+							out.Reset()
+							e, _ := ml.VEncode(ml.VErrMsg, &ml.VErrResp{Error: "go away"}, false)
+							out.Write(e)
 						}
 						// the accepting side writes no label header but seals with the label
 						framed := wrapStream(rcfg{Keys: cfg.Keys, Label: cfg.Label, EncVsn: cfg.EncVsn}, out.Bytes())
@@ -782,7 +806,11 @@ func runC09HostileHost(t *testing.T, rep *Report) {
 				var n int
 				var jerr error
 				done := make(chan struct{})
-				go func() { n, jerr = a.M.Join([]string{"10.0.0.2:7946"}); close(done) }()
+				jaddr := c.addr
+				if jaddr == "" {
+					jaddr = "10.0.0.2:7946"
+				}
+				go func() { n, jerr = a.M.Join([]string{jaddr}); close(done) }()
 				settle()
 				time.Sleep(5 * time.Second)
 				settle()
@@ -797,6 +825,9 @@ func runC09HostileHost(t *testing.T, rep *Report) {
 					}
 					if nodeDigest(a) != dig {
 						rep.Violate("hostile-host:state-changed", fmt.Sprintf("%s %v: %s -> %s", c.desc, cfg, dig, nodeDigest(a)), nil)
+					}
+					if c.noDial && dials != 0 {
+						rep.Violate("hostile-host:malformed-address-dialled", fmt.Sprintf("%s %v: %d dials", c.desc, cfg, dials), nil)
 					}
 					if c.veto && mg.Calls != 1 {
 						rep.Violate("hostile-host:merge-delegate-not-consulted", fmt.Sprintf("%s %v: NotifyMerge called %d times", c.desc, cfg, mg.Calls), nil)
